@@ -17,6 +17,7 @@ from lib.tlcrun import run_tlc
 from bind import replay_packet as rp
 
 NOMV = {"kind": "none"}
+GEN_SHARED = {"share_opts": True, "vectorize": True}      # the classes of a module written with ONE options dictionary object
 NODESC = {"kind": "none"}
 
 
@@ -124,7 +125,7 @@ def _wrun(chunk):
     n = 0
     for c in chunk:
         for gen, emb in ((rp.GEN_OFF, False), (None, False), (rp.GEN_OFF, True), (None, True), (rp.GEN_OFF, "two"), (None, "two"),
-                         (rp.GEN_OFF, "nested"), (None, "nested")):
+                         (rp.GEN_OFF, "nested"), (None, "nested"), (GEN_SHARED, "nested"), (GEN_SHARED, True)):
             decl = DECLS[c["kind"]]
             if emb == "nested":
                 mod = _W["sc"].load(nested(decl), gen)
